@@ -46,7 +46,9 @@ def generate(rng, tier, i):
     scn = {'kernel': gen.draw_kernel(rng), 'latency': {'kind': 'const', 'ns': 50_000},
            'stacks': [{'name': 'B', 'dll': dll, 'max_cmdt': rng.choice([1, 3, 255]), 'cas': cas, 'ecu_listeners': el}],
            'foreign_len': rng.choice([20, 100]) if dll == 'j1939-21' else rng.choice([100, 200]),
-           'pf1': rng.choice([0xD0, 0x00, 0xEF, 0xC3]), 'pf2': rng.choice([0xFE, 0xF0, 0xFF])}
+           'pf1': rng.choice([0xD0, 0x00, 0xEF, 0xC3]), 'pf2': rng.choice([0xFE, 0xF0, 0xFF]), 'dp': rng.choice([0, 0, 1]),
+           # listeners that were registered for an address and removed again before any traffic: the address is not owned
+           'ghost_listeners': [a for a in (rng.randrange(0, 254), 0x10, 0xCA)[:rng.choice([0, 0, 1, 2])] if a not in used]}
     return scn
 
 
@@ -69,6 +71,12 @@ def execute(scn, keep_log=False, hook=None):
         if c['kind'] == 'cannot':
             nv = (c['name'] & ((1 << 63) - 1)) >> 1
             sim.at(base + 20_000_000, (lambda a=c['addr'], nv=nv: bus.send('X', rc.make_id(6, 0, rc.PF_ADDRESS_CLAIM, 255, a), True, nv.to_bytes(8, 'little'))), 'op')
+    for a in scn.get('ghost_listeners', []):
+        if a in [x for x in cfg['ecu_listeners'] if isinstance(x, int)]:
+            continue
+        ghost = (lambda *args: viol.append({'clause': 'unsubscribed-listener-called', 'rank': 1, 'msg': 'a listener removed with unsubscribe() was called'}))
+        st.ecu.subscribe(ghost, a)
+        st.ecu.unsubscribe(ghost)
     sim.run_until(base + 50_000_000)
     stats['addressless_cas'] = sum(1 for ca in st.cas if ca.state != 2)
 
@@ -114,17 +122,18 @@ def execute(scn, keep_log=False, hook=None):
     # ---- sweep: single frames to every destination, PDU1 and PDU2
     t_before = st.tables()
     tx0 = len(own_tx())
+    dp = scn.get('dp', 0)
     for dest in range(256):
         for pdu2 in (False, True):
             n0 = len(w.deliveries)
             data = bytes([dest, int(pdu2), 3, 4, 5, 6, 7, 8])
             if pdu2:
-                cid = rc.make_id(6, 0, scn['pf2'], dest, X)
-                pgn = rc.sae_pgn(0, scn['pf2'], dest)
+                cid = rc.make_id(6, dp, scn['pf2'], dest, X)
+                pgn = rc.sae_pgn(dp, scn['pf2'], dest)
                 stats['pdu2_frames'] += 1
             else:
-                cid = rc.make_id(6, 0, scn['pf1'], dest, X)
-                pgn = rc.sae_pgn(0, scn['pf1'], 0)
+                cid = rc.make_id(6, dp, scn['pf1'], dest, X)
+                pgn = rc.sae_pgn(dp, scn['pf1'], 0)
             if pdu2 or dest == 255:
                 must = allowed = all_listeners()
             else:
@@ -161,7 +170,7 @@ def execute(scn, keep_log=False, hook=None):
 
     # ---- single transport-protocol frames (RTS, CTS, DT, end-of-message ack, abort, BAM-less DT) addressed to addresses nobody
     #      local owns: no delivery, no transmission, no state
-    foreign = [a for a in (0x99, 0x9A, 254) if not any(ca.state == 2 and ca.device_address == a for ca in st.cas)
+    foreign = [a for a in [0x99, 0x9A, 254] + list(scn.get('ghost_listeners', [])) if not any(ca.state == 2 and ca.device_address == a for ca in st.cas)
                and not any(isinstance(x, int) and x == a for x in cfg['ecu_listeners'])]
     n0 = len(w.deliveries)
     tx0 = len(own_tx())
